@@ -2,6 +2,7 @@
 # usage: tools/baseline_eval.sh <Cxx> : run a hunting sub-agent's baseline_<n>.py scripts (claimed violations on the UNMODIFIED library)
 # against /repo's current tree; prints exit code and last line of each.  Nothing is written to /repo.
 P=$1; SD=${2:-/verif/seeded/$P-w4}
+mkdir -p /tmp/seed-$P  # (some scripts create their scratch directories there)
 for f in $SD/baseline_*.py; do
   [ -f "$f" ] || continue
   sed "s#/tmp/wt-$P/src#/repo/src#g" $f > /dev/shm/bl-$P-$(basename $f)
@@ -11,3 +12,4 @@ for f in $SD/baseline_*.py; do
   echo "$(basename $f) rc=$rc :: $out"
   rm -f /dev/shm/bl-$P-$(basename $f)
 done
+rm -rf /tmp/seed-$P
